@@ -3167,6 +3167,24 @@ func E11CopyStore(c *core.Ctx, r *core.Report) {
 			}
 			return true
 		})
+		// … and the per-clause objects of `switch v := x.(type) { case T: … }` with T a struct value type
+		ast.Inspect(fd.Body, func(m ast.Node) bool {
+			ts, ok := m.(*ast.TypeSwitchStmt)
+			if !ok {
+				return true
+			}
+			if _, binds := ts.Assign.(*ast.AssignStmt); !binds {
+				return true
+			}
+			for _, cs := range ts.Body.List {
+				if o := info.Implicits[cs]; o != nil {
+					if _, isStruct := o.Type().Underlying().(*types.Struct); isStruct {
+						copies[o] = true
+					}
+				}
+			}
+			return true
+		})
 		if len(copies) == 0 {
 			continue
 		}
